@@ -217,3 +217,26 @@ def box(v, ty):
 def fresh(name, ty, ctr=[0]):
     ctr[0] += 1
     return SV(z3.Const("%s!%d" % (name, ctr[0]), sort(ty)), ty)
+
+
+_nth_i = {}
+
+
+def nth_pat(s, k):
+    """E-matching trigger for `s[k]` on sequences: z3 rewrites seq.nth into an in-bounds part (seq.nth_i) and an
+    out-of-bounds part before matching, so a pattern must name the in-bounds operator (the cvc5 dump maps it back to seq.nth)"""
+    key = s.sort().get_id() if hasattr(s.sort(), "get_id") else s.sort().sexpr()
+    if key not in _nth_i:
+        a = z3.Const("nthpat_s", s.sort())
+        i = z3.Int("nthpat_i")
+        fs = z3.parse_smt2_string("(assert (= (seq.nth_i nthpat_s nthpat_i) (seq.nth_i nthpat_s nthpat_i)))",
+                                  decls={"nthpat_s": a, "nthpat_i": i})
+        t = fs[0]
+        # the parser may simplify x = x; fall back to a fresh comparison
+        if not z3.is_app(t) or t.num_args() == 0:
+            b = z3.Const("nthpat_x", s.sort().basis())
+            fs = z3.parse_smt2_string("(assert (= (seq.nth_i nthpat_s nthpat_i) nthpat_x))",
+                                      decls={"nthpat_s": a, "nthpat_i": i, "nthpat_x": b})
+            t = fs[0]
+        _nth_i[key] = t.arg(0).decl()
+    return _nth_i[key](s, k)
